@@ -844,28 +844,56 @@ func (c *Ctx) nameGenerator(u FuncUnit, loop *ast.RangeStmt, nameObj types.Objec
 		}
 		return false
 	}
-	nNumDefs, nNameDefs := 0, 0
+	// Path-based reading of the generator (any loop shape):
+	//   - the number is written only by ++ / += k (k >= 1) / its one definition `number := counter (+ k)`;
+	//   - every path from the entry to a return passes a write that makes it exceed the caller's counter;
+	//   - every definition of the name renders the number, all with one shape;
+	//   - after every write of the number, every path to a return re-renders the name first.
+	gfc := c.cfgOf(FuncUnit{g, gd, c.pkgOf[gd]}, nil)
+	nNameDefs := 0
 	var shape string
+	numWrites := map[ast.Node]bool{} // statements that raise the number (>= +1)
+	nInit := 0
+	nameDefs := map[ast.Node]bool{}
 	ast.Inspect(gd.Body, func(n ast.Node) bool {
 		switch x := n.(type) {
 		case *ast.AssignStmt:
 			for i, l := range x.Lhs {
 				switch identObj(ginfo, l) {
 				case number:
-					nNumDefs++
-					// number := counter + k, k >= 1
-					ok := false
-					if len(x.Lhs) == len(x.Rhs) && nNumDefs == 1 {
-						if be, isB := ast.Unparen(x.Rhs[i]).(*ast.BinaryExpr); isB && be.Op == token.ADD {
+					if len(x.Lhs) != len(x.Rhs) {
+						okGen = false
+						continue
+					}
+					r := ast.Unparen(x.Rhs[i])
+					switch {
+					case x.Tok == token.ADD_ASSIGN:
+						if k, isC := intConst(ginfo, r); isC && k >= 1 {
+							numWrites[x] = true
+						} else {
+							okGen = false
+						}
+					case number != cparam && (x.Tok == token.DEFINE || x.Tok == token.ASSIGN) && nInit == 0:
+						nInit++
+						if identObj(ginfo, r) == cparam {
+							break // plain copy: must still be raised before a return
+						}
+						be, isB := r.(*ast.BinaryExpr)
+						okInit := false
+						if isB && be.Op == token.ADD {
 							if k, isC := intConst(ginfo, be.Y); isC && k >= 1 && identObj(ginfo, be.X) == cparam {
-								ok = true
+								okInit = true
 							}
 							if k, isC := intConst(ginfo, be.X); isC && k >= 1 && identObj(ginfo, be.Y) == cparam {
-								ok = true
+								okInit = true
 							}
 						}
-					}
-					if !ok {
+						if okInit {
+							numWrites[x] = true
+						} else {
+							okGen = false
+						}
+					default:
 						okGen = false
 					}
 				case name:
@@ -878,14 +906,18 @@ func (c *Ctx) nameGenerator(u FuncUnit, loop *ast.RangeStmt, nameObj types.Objec
 							okGen = false
 						}
 						shape = sh
+						nameDefs[x] = true
 					}
 				}
 			}
 		case *ast.IncDecStmt:
-			if identObj(ginfo, x.X) == number && x.Tok != token.INC {
-				okGen = false
-			}
-			if identObj(ginfo, x.X) == cparam && number != cparam {
+			if identObj(ginfo, x.X) == number {
+				if x.Tok == token.INC {
+					numWrites[x] = true
+				} else {
+					okGen = false
+				}
+			} else if identObj(ginfo, x.X) == cparam {
 				okGen = false
 			}
 		case *ast.UnaryExpr:
@@ -895,52 +927,78 @@ func (c *Ctx) nameGenerator(u FuncUnit, loop *ast.RangeStmt, nameObj types.Objec
 		}
 		return true
 	})
-	gfc := c.cfgOf(FuncUnit{g, gd, c.pkgOf[gd]}, nil)
-	if number == cparam && nNumDefs == 0 && len(gfc.G.Blocks) > 0 {
-		// the counter parameter itself is the number: it must be incremented in the entry
-		// block before the first rendering (`last++; name := fmt.Sprintf("x%d", last)`)
-		for _, n := range gfc.G.Blocks[0].Nodes {
-			if inc, ok := n.(*ast.IncDecStmt); ok && inc.Tok == token.INC && identObj(ginfo, inc.X) == number {
-				nNumDefs = 1
-				break
-			}
-			mentions := false
-			ast.Inspect(n, func(m ast.Node) bool {
-				if id, ok := m.(*ast.Ident); ok && (ginfo.Uses[id] == number || ginfo.Uses[id] == name || ginfo.Defs[id] == name) {
-					mentions = true
-				}
-				return true
-			})
-			if mentions {
-				break
-			}
-		}
-	}
-	if !okGen || nNumDefs != 1 || nNameDefs == 0 {
+	if !okGen || nNameDefs == 0 || len(numWrites) == 0 || (number != cparam && nInit != 1) {
 		return nil
 	}
-	// every increment of the number is followed, in its block, by a re-rendering of the name
+	// locate the writes and renderings in the flow graph (an if/for init statement sits in the block of its condition)
+	type at struct {
+		b *cfg.Block
+		i int
+	}
+	find := func(set map[ast.Node]bool) []at {
+		var out []at
+		for _, b := range gfc.G.Blocks {
+			if !gfc.Live(b) {
+				continue
+			}
+			for i, n := range b.Nodes {
+				if set[n] {
+					out = append(out, at{b, i})
+				}
+			}
+		}
+		return out
+	}
+	wr, rd := find(numWrites), find(nameDefs)
+	if len(wr) != len(numWrites) || len(rd) != len(nameDefs) {
+		return nil
+	}
+	var retBlocks []*cfg.Block
 	for _, b := range gfc.G.Blocks {
 		if !gfc.Live(b) {
 			continue
 		}
-		for i, n := range b.Nodes {
-			inc, ok := n.(*ast.IncDecStmt)
-			if !ok || identObj(ginfo, inc.X) != number {
-				continue
+		for _, n := range b.Nodes {
+			if _, ok := n.(*ast.ReturnStmt); ok {
+				retBlocks = append(retBlocks, b)
 			}
-			re := false
-			for _, m := range b.Nodes[i+1:] {
-				if as, ok := m.(*ast.AssignStmt); ok {
-					for _, l := range as.Lhs {
-						if identObj(ginfo, l) == name {
-							re = true
-						}
-					}
+		}
+	}
+	wrBlocks, rdBlocks := map[*cfg.Block]bool{}, map[*cfg.Block]bool{}
+	for _, w := range wr {
+		wrBlocks[w.b] = true
+	}
+	for _, r := range rd {
+		rdBlocks[r.b] = true
+	}
+	for _, rb := range retBlocks {
+		// a return is reached only after the number was raised ...
+		if !wrBlocks[rb] && gfc.reachableFromAvoidingBlocks(gfc.G.Blocks[0], rb, wrBlocks) {
+			return nil
+		}
+	}
+	// ... and after every raise the name is rendered again before any return
+	for _, w := range wr {
+		rerendered := false
+		for _, r := range rd {
+			if r.b == w.b && r.i > w.i {
+				rerendered = true
+			}
+		}
+		if rerendered {
+			continue
+		}
+		for _, rb := range retBlocks {
+			if rb == w.b {
+				return nil // raised and returned in one block without a rendering in between
+			}
+			if rdBlocks[rb] {
+				continue // the rendering in the return's own block precedes the return
+			}
+			for _, sx := range w.b.Succs {
+				if gfc.reachableFromAvoidingBlocks(sx, rb, rdBlocks) {
+					return nil
 				}
-			}
-			if !re {
-				return nil
 			}
 		}
 	}
